@@ -328,6 +328,44 @@ theorem convert_shape_2d (units : List String) (rows : List (List ℝ)) (h : ∀
 
 end shape
 
+/-! ### what `convert_units` gets WRONG (negations, reproduced on the real code by harness/c15.py; known findings) -/
+
+/-- a 2-D array whose values all carry ONE unit string is NOT converted element-wise: the array is transposed, only
+    column 0 of the transpose (= row 0 of the data) is converted and everything else is returned as 0.
+    Witness: `convert_units([[10,20],[30,40]], 'deg C')` = [[283.15, 0], [293.15, 0]] instead of
+    [[283.15, 293.15], [303.15, 313.15]]. -/
+theorem convert_shape_2d_one_unit_false :
+    convertUnits (ambient (α := ℝ)) [[10, 20], [30, 40]] ["deg C"] = [283.15, 0, 293.15, 0] ∧
+    [[(10 : ℝ), 20], [30, 40]].flatten.map (convCol (ambient (α := ℝ)) "deg C") = [283.15, 293.15, 303.15, 313.15] := by
+  have hr : ∃ r ∈ ambientQ, r.unit = "deg C" ∧ r.factor = 1 ∧ r.offset = 273.15 := by decide +kernel
+  obtain ⟨r, hr, hu, hf, ho⟩ := hr
+  have h : ∀ x : ℝ, convCol (ambient (α := ℝ)) "deg C" x = x + 273.15 := by
+    intro x
+    have := (ambient_convert_documented r hr x).1
+    rw [hu, hf, ho] at this
+    rw [this]; push_cast; ring
+  constructor
+  · simp [convertUnits, transpose, h, List.range_succ]
+    norm_num
+  · simp [h]
+    norm_num
+
+/-- the label of a unit string the table does not know — in particular its own standard unit `kg/m^2/s` — comes
+    back split into characters -/
+theorem convert_units_label_split :
+    outUnits (ambient (α := ℝ)) ["kg/m^2/s"] = ["k", "g", "/", "m", "^", "2", "/", "s"] := by
+  have hn : lookupQ ambientQ "kg/m^2/s" = none := by decide +kernel
+  simp only [outUnits, ambient_real_eq_cast, lookup_map_cast, hn, Option.map_none, List.flatMap_cons, List.flatMap_nil,
+    List.append_nil]
+  decide
+
+/-- for every recognised unit string the returned label is the documented standard unit -/
+theorem convert_units_labels_documented :
+    ∀ r ∈ ambientQ, outUnits (ambient (α := ℝ)) [r.unit] = [r.out] := by
+  intro r hr
+  have h := lookupQ_of_mem ambient_keys_nodup hr
+  simp [outUnits, ambient_real_eq_cast, lookup_map_cast, h, castRow]
+
 /-! ## (b) chemical_properties.convert_units — the regenerated chain of unit blocks -/
 
 /-- the affine reduction `chemRulesQ` computed by the generator IS the expression of each `if` block
@@ -363,28 +401,20 @@ theorem chem_convert_documented :
 /-- FULL statement (`ChemChainDocumented`, Lemmas/C15.lean): each block's pattern, alternative spelling, factor, offset,
     M-dependence and new unit is the documented one of `Std.chem` (exactly, or to the accuracy of the rounded constant).
     True since the repair of the `(L/mol/deg F)` block (fix 543e1ec in /repo: `/ (5./9.)`); before it only
-    `chem_units_chain_partial` held and `chem_units_chain_LmolF_witness` gave the negation. -/
+    `chem_units_chain_partial` held; `chem_units_chain_LmolF_witness` is the negation for the old block. -/
 theorem chem_units_chain : ChemChainDocumented := by
   decide +kernel
 
 /-- the same for every block except `(L/mol/deg F)` (kept: it is what remains provable if that block regresses) -/
 theorem chem_units_chain_partial :
-    ∀ q ∈ chemRulesQ, q.pat ≠ "(L/mol/deg F)" → ∃ s ∈ Std.chem, s.pat = q.pat ∧ q.alt = s.alt ∧
-      q.hasAlt = (s.alt != "") ∧ q.out = s.out ∧
-      q.usesM = s.usesM ∧ q.b = s.b ∧ Std.ratAbs (q.a - s.a) ≤ s.tol * s.a := by
+    ∀ q ∈ chemRulesQ, q.pat ≠ "(L/mol/deg F)" → RuleDocumented q := by
   decide +kernel
 
-/-! `LmolFDefect` (Lemmas/C15.lean): the block `(L/mol/deg F)` multiplies by 1e-3·(5/9) = 1/1800 — the defect found by this
-    check in the original source. -/
-
-/-- witness of the negation for the original source: a quantity per °F is 9/5 of the quantity per °C (as the sibling
-    blocks `(ft^3/lb-mol/deg F)`, `(BTU/lb-mol/deg F)` have it), documented factor 1e-3·9/5 = 9/5000; with the factor
-    1/1800 (3.24 times smaller) the full statement is false -/
-theorem chem_units_chain_LmolF_witness : LmolFDefect → ¬ ChemChainDocumented := by
-  decide +kernel
-
-/-- on any source: the full statement holds, or exactly the recorded defect is present -/
-theorem chem_units_chain_or_recorded_defect : ChemChainDocumented ∨ LmolFDefect := by
+/-- the defect this check found in the original source (non-vacuous: about the literal old block): multiplying a quantity
+    per °F by 1e-3·(5/9) = 1/1800 is NOT the documented conversion — a quantity per °F is 9/5 of the quantity per °C (as the
+    sibling blocks `(ft^3/lb-mol/deg F)`, `(BTU/lb-mol/deg F)` have it), documented factor 9/5000, 3.24 times larger -/
+theorem chem_units_chain_LmolF_witness :
+    ¬ RuleDocumented oldLmolFRule ∧ RuleDocumented { oldLmolFRule with a := 9 / 5000 } := by
   decide +kernel
 
 theorem chem_units_table_complete : ∀ s ∈ Std.chem, ∃ q ∈ chemRulesQ, q.pat = s.pat := by
